@@ -412,6 +412,10 @@ def check_case(case):
     if problems:
         unknown = [p for p in problems if p[0] not in KNOWN]
         key, msg = (unknown or problems)[0]
+        if repeat == 1:
+            # schedules are sampled: the saved case re-samples every invocation up to 6 times (and stops at the
+            # first problem) so that a schedule dependent failure reproduces when it is replayed
+            case["repeat"] = 6
         return Result(False, key, msg + "\ncommand lines: %s\n%s" % ([launch_desc(r) for r in runs], describe(files)))
     return Result(True, nontrivial=nontrivial, classes=sorted(classes),
                   sample={"files": describe(files), "runs": runs})
